@@ -6,13 +6,22 @@
    package-level variables of in_toto, and a call can modify such a variable only at one of
    the sites the translator lists in [pkg_var_writes].  When that list is empty (obligation
    [globals_written_empty] in props/C16.v, re-checked against the source on every run) the
-   calls are write-free threads and the theorem applies. *)
+   calls are write-free threads and the theorem applies.
+
+   State of the whole process that the Go runtime or the kernel keeps for all goroutines -- working
+   directory, environment, umask, signal dispositions, default logger, global random source, default
+   HTTP mux, global flag set, runtime knobs -- is shared state in the same sense: it is represented by
+   one pseudo-variable per kind of state (the third component of [pkg_process_state_calls], e.g.
+   "cwd"), a call that changes it is a [Write] to that variable, and every path-relative or
+   environment-dependent operation is a [Read] of it.  The second obligation
+   [globals_no_process_state_calls] says that no function of in_toto makes such a call. *)
 From IT Require Import model.Base model.Conc proofs.ConcProofs gen.Globals.
 Local Open Scope nat_scope.
 
-Definition library_written_vars : list var := map (fun t => fst (fst t)) pkg_var_writes.
+Definition library_written_vars : list var :=
+  map (fun t => fst (fst t)) pkg_var_writes ++ map (fun t => snd t) pkg_process_state_calls.
 
-Theorem library_calls_serializable (Hinv : pkg_var_writes = []) :
+Theorem library_calls_serializable (Hinv : pkg_var_writes = []) (Hproc : pkg_process_state_calls = []) :
   forall (V L : Type) (ts : list (prog V L)) (s0 : store V) (sched order : list nat),
   writes_within library_written_vars ts ->
   finished (run sched (s0, ts)) = true ->
@@ -22,14 +31,14 @@ Theorem library_calls_serializable (Hinv : pkg_var_writes = []) :
 Proof.
   intros V L ts s0 sched order Hw Hfin P.
   apply (inventory_serializable library_written_vars).
-  - unfold library_written_vars. rewrite Hinv. reflexivity.
+  - unfold library_written_vars. rewrite Hinv, Hproc. reflexivity.
   - exact Hw.
   - exact Hfin.
   - apply perm_covers; exact P.
 Qed.
 
 (* a call that has returned, at any point of any interleaving with any other calls *)
-Theorem library_call_result_fixed (Hinv : pkg_var_writes = []) :
+Theorem library_call_result_fixed (Hinv : pkg_var_writes = []) (Hproc : pkg_process_state_calls = []) :
   forall (V L : Type) (ts : list (prog V L)) (s0 : store V) (sched : list nat) i p r,
   writes_within library_written_vars ts ->
   nth_error ts i = Some p ->
@@ -38,5 +47,5 @@ Theorem library_call_result_fixed (Hinv : pkg_var_writes = []) :
 Proof.
   intros V L ts s0 sched i p r Hw. apply no_shared_state_prefix.
   intros q g Hq W. specialize (Hw q g Hq W).
-  unfold library_written_vars in Hw. rewrite Hinv in Hw. exact Hw.
+  unfold library_written_vars in Hw. rewrite Hinv, Hproc in Hw. exact Hw.
 Qed.
